@@ -679,7 +679,13 @@ class Common:
         self._listener_d.cancel()
 
     def add_connection_hints(self, hints):
+        if not isinstance(hints, list):
+            log.msg(f"invalid connection hints: {hints!r}")
+            return
         for h in hints:  # hint structs
+            if not isinstance(h, dict):
+                log.msg(f"invalid hint (not a dict): {h!r}")
+                continue
             hint_type = h.get("type", "")
             if hint_type in ["direct-tcp-v1", "tor-tcp-v1"]:
                 dh = parse_tcp_v1_hint(h)
@@ -691,7 +697,10 @@ class Common:
                 # them as separate relays, instead of merging them all
                 # together like this.
                 relay_hints = []
-                for rhs in h.get("hints", []):
+                sub_hints = h.get("hints", [])
+                if not isinstance(sub_hints, list):
+                    sub_hints = []
+                for rhs in sub_hints:
                     h = parse_tcp_v1_hint(rhs)
                     if h:
                         relay_hints.append(h)
